@@ -183,6 +183,10 @@ def run(ctx, progs):
         ctx.config = cfg
         eff = effects.Effects(prog)
         rule_find_region(ctx, prog, eff)
+        # check_range (and every other ranged query) is a function of try_access: the walk over regions — which count it asks of
+        # each region, how it adds up, when it stops — is part of what makes "is this range backed?" right (R3.1, shared with C03/C14)
+        from . import c03
+        c03.rule_try_access(ctx, prog, eff)
         D = lambda rule, body, pat, clos=(), want="": deleg(ctx, prog, eff, rule, body, pat, clos, want)
         # ---------------- GuestMemoryRegion provided methods
         D("R2.1.last_addr", prov(prog, GR, "last_addr"),
